@@ -621,7 +621,7 @@ func genHist(tier string, seed uint64) {
 		f := []string{"cbor", "json"}[r.intn(2)]
 		var ops []string
 		for j := 0; j < 1+r.intn(hl); j++ {
-			aid := 1 + r.intn(4)
+			aid := 1 + r.intn(5)
 			t := types[r.intn(len(types))]
 			o := genOpts{depth: 1 + r.intn(3), jsonSafe: f == "json" && !r.chance(1, 10), roundtrip: true, tagged: aid == 2 || aid == 3, cbor: f == "cbor"}
 			switch r.intn(10) {
@@ -728,6 +728,33 @@ func genHist(tier string, seed uint64) {
 	nf := 400
 	if tier == "thorough" {
 		nf = 6000
+	}
+	// JSON items written back to back with NO separator: every item after a number starts with a character that
+	// cannot continue a number, so the stream is still self-delimiting
+	{
+		ifaceT := reflect.TypeOf((*interface{})(nil)).Elem()
+		intT, strT := tid(reflect.TypeOf(int(0))), tid(reflect.TypeOf(""))
+		for i := 0; i < nf/8; i++ {
+			var vals []string
+			for j := 0; j < 2+r.intn(10); j++ {
+				if j%2 == 0 {
+					vals = append(vals, fmt.Sprintf("I%d:i%d", intT, int64(r.next()>>uint(r.intn(64)))-int64(r.intn(3))))
+				} else {
+					o := genOpts{depth: 1 + r.intn(2), jsonSafe: true, roundtrip: true}
+					switch r.intn(4) {
+					case 0:
+						vals = append(vals, fmt.Sprintf("I%d:%s", strT, genValue(r, reflect.TypeOf(""), o)))
+					case 1:
+						vals = append(vals, fmt.Sprintf("I%d:%s", tid(reflect.TypeOf([]interface{}{})), genValue(r, reflect.TypeOf([]interface{}{}), o)))
+					case 2:
+						vals = append(vals, fmt.Sprintf("I%d:%s", tid(reflect.TypeOf(map[string]interface{}{})), genValue(r, reflect.TypeOf(map[string]interface{}{}), o)))
+					default:
+						vals = append(vals, "n")
+					}
+				}
+			}
+			emit("frame0 json 1 %d %s", tid(ifaceT), strings.Join(vals, "|"))
+		}
 	}
 	for i := 0; i < nf; i++ {
 		f := []string{"cbor", "json"}[r.intn(2)]
